@@ -112,7 +112,8 @@ Definition wsum (xs ws : list t) : t :=
 
 (* EstimatesExtraction.cpp:210-221.  head(linear) = topRows(linear) * exp(w);
    tail(circular) = directional_mean(bottomRows(circular), exp(w)).
-   (particles has state_size rows: bottomRows(circular) starts at row linear.) *)
+   (particles has state_size rows: bottomRows(circular) starts at row linear.)
+   With ONE column directional_mean returns that column wrapped to (-pi, pi] (/repo dee9c81; C19_Model.dir_mean). *)
 Definition mean (ps : list vec) (lw : list t) : vec :=
   let w := map (sexp S) lw in
   map (fun r => wsum (prow r ps) w) (seq 0 lin)
